@@ -271,7 +271,55 @@ def logical_like(rng, d):
     return {"dim": d, "op": "Sub", "args": [pb, {"k": "T", "a": copy.deepcopy(pb)}]}
 
 
+def m_count(j, pred):
+    k = j["k"]
+    n = 1 if pred(j) else 0
+    if k in ("add", "mul"):
+        n += sum(m_count(a, pred) for a in j["a"])
+    elif k == "pow":
+        n += m_count(j["b"], pred)
+    elif k in ("T", "inv", "tr", "det", "elem"):
+        n += m_count(j["a"], pred)
+    return n
+
+
+def heavy(case):
+    """inputs whose meaning as matrices of rational functions is too large for a quick kernel check (and for the
+    library's own symbolic Matrix.inv()): several inverses, determinants / inverses of composite expressions"""
+    d = case["dim"]
+    if d == 1:
+        return False
+    is_inv = lambda j: j["k"] == "inv" or (j["k"] == "mat" and j["t"] == "jaci") or (j["k"] == "pow" and j["e"] < 0 and j["b"]["k"] != "det")  # noqa
+    ninv = sum(m_count(a, is_inv) for a in case["args"]) + (1 if case["op"] == "Inv" else 0)
+    size = sum(m_size(a) for a in case["args"])
+
+    def composite_under(j):
+        # an inverse / determinant of something that is not an atom or the transpose of an atom
+        if j["k"] in ("inv", "det"):
+            a = j["a"]
+            if a["k"] == "T":
+                a = a["a"]
+            if not (a["k"] == "mat" and a["t"] != "jaci"):
+                if d == 3 or m_size(a) > 3 or m_count(a, is_inv) > 0:
+                    return True
+        return False
+    comp = sum(m_count(a, composite_under) for a in case["args"])
+    if case["op"] in ("Inv", "Det"):
+        comp += 1 if composite_under({"k": "inv", "a": case["args"][0]}) else 0
+    if d == 3:
+        return ninv > 1 or size > 12 or comp > 0
+    return ninv > 2 or size > 24 or comp > 0
+
+
 def gen_case(rng, tier):
+    for _ in range(50):
+        c = gen_case1(rng, tier)
+        if not heavy(c):
+            return c
+    return c
+
+
+def gen_case1(rng, tier):
     d = rng.choice([1, 2, 2, 2, 3])
     depth = rng.randint(1, 2)
     if d == 3:
@@ -413,7 +461,7 @@ def stage(run, cov, replay=None, n=None):
     """generate, run the real constructors, evaluate the model inside Coq, decide, report; adds cov["matrices"]"""
     rng = random.Random(run.seed * 7919 + 11)
     quick = run.tier == "quick"
-    n = n if n is not None else (260 if quick else 2600)
+    n = n if n is not None else (220 if quick else 1500)
     corpus_f = run.work.parents[1] / "corpus" / "C02m.json"
     cases = []
     if replay:
@@ -643,6 +691,11 @@ def stage(run, cov, replay=None, n=None):
                     break
                 best, best_r = hit
         fsig = sig_of(best, best_r, kind) if kind != "runner-crash" else sig
+        fkey = json.dumps(fsig, sort_keys=True)
+        if fkey != key and fkey in reported:
+            reported[fkey] += 1          # shrank to an input already reported
+            continue
+        reported.setdefault(fkey, 1)
         obs = {"result": best_r.get("str", best_r.get("out")), "class": best_r.get("cls"), "oracle": best_r.get("oracle")} \
             if isinstance(best_r, dict) else None
         run.report(fsig, "C02 fails on the implementation (sympde/calculus/matrices.py): %s [%s of %s]"
